@@ -401,7 +401,8 @@ for _p, _t in ADDENDA.items():
 PAR_MODES = {"C01": 1, "C02": 2, "C03": 3, "C05": 5, "C07": 7, "C08": 8, "C09": 9, "C10": 10, "C11": 11, "C12": 12, "C13": 13, "C14": 14}
 PAR_ASSUMPTION = ("the property is taken to hold for each thread's own objects whatever other threads do with theirs: a batch of runs (world 'par') "
                   "interleaves 2-3 simulated threads, each with containers and elements of its own, inside library functions at basic-block granularity "
-                  "(preemption points from -fsanitize-coverage=trace-pc in the 'work' build variant; uniform and park-and-overtake schedules from the seed) "
+                  "(preemption points from -fsanitize-coverage=trace-pc in the 'work' build variant; uniform and park-and-overtake schedules from the seed), "
+                  "in half of the runs with instruction-level jitter (when a quantum of basic blocks is used up the x86 trap flag is set and the thread is stopped 1-24 library instructions later, so windows inside one basic block are reachable), "
                   "and demands that every operation's result and the complete container structure equal what the same thread sees when it runs alone; "
                   "the library is thus required to keep no hidden state shared between objects (a static scratch node, a parked comparator)")
 for _p, _m in PAR_MODES.items():
@@ -410,4 +411,4 @@ for _p, _m in PAR_MODES.items():
     CHECKS[_p]["required_probes"].append("par_preemptions_inside_library")
     CHECKS[_p]["assumptions"].append(PAR_ASSUMPTION)
     MANIFEST_TEXT[_p]["text"] += (" A further batch (world 'par') runs 2-3 simulated threads, each with objects of its own, preempted inside library functions at "
-                                  "basic-block granularity, and compares every result and structure with the same thread running alone (no hidden shared state between objects).")
+                                  "basic-block granularity (in half of the runs refined to single instructions), and compares every result and structure with the same thread running alone (no hidden shared state between objects).")
